@@ -250,7 +250,7 @@ func c06FamHas(r *Run, full bool) []c06m {
 	for _, c := range conds {
 		for _, v := range vals {
 			for ki, k := range keys {
-				if !full && ki >= 2 && r.Rng.Intn(3) != 0 {
+				if !full && (ki >= 2 && r.Rng.Intn(3) != 0 || r.Rng.Intn(2) == 0) {
 					continue
 				}
 				h := c06Cond(k, c, v)
@@ -308,7 +308,7 @@ func c06FamAgg(r *Run, full bool) []c06m {
 			out = append(out, c06Query(append(append([]interface{}{}, st...), c06Aggregate(k))...))
 			r.Count("fam:agg.single")
 			for _, k2 := range kinds {
-				if full || r.Rng.Intn(6) == 0 {
+				if full || r.Rng.Intn(12) == 0 {
 					// same name twice
 					out = append(out, c06Query(append(append([]interface{}{}, st...), c06Aggregate(k, k2))...))
 					r.Count("fam:agg.duplicate")
@@ -469,9 +469,9 @@ func c06Gen(r *Run) {
 			fams = [][]c06m{c06FamNull(r, full), c06FamNoCurrent(r, full), c06FamHas(r, full), c06FamAgg(r, full), c06FamMisc(r, full), c06FamEdit(r, full)}
 			if gi == 1 && !full {
 				// empty graph, quick tier: the families whose behaviour depends on the input being empty
-				fams = [][]c06m{c06FamAgg(r, false), c06FamMisc(r, false), c06FamNoCurrent(r, false), c06FamEdit(r, false)}
+				fams = [][]c06m{c06FamAgg(r, false), c06FamMisc(r, false), c06FamEdit(r, false)}
 			}
-			nr := 150
+			nr := 100
 			if full {
 				nr = 1500
 			}
